@@ -445,6 +445,10 @@ class Update(Spec):
                 return z3.If(z2 > h(p), 2 * h(p) - z2, z2)
 
             v["Z"] = Arr((n,), znew, "real")
+            # C15 / C11 speak of a particle inside the water column whose vertical displacement is smaller than the depth
+            # (one reflection brings it back); what happens to other particles is not specified by any property
+            v["Z"].cmp_guard = lambda p: z3.And(fz(p) >= 0, fz(p) <= h(p), d(p) < h(p), -d(p) < h(p))  # noqa: E731
+            v["Z"].cmp_guard_text = "for a depth inside the water column and |vertical displacement| < depth: the cases C15 and C11 speak of"
             info.update(h=h, d=d)
         self._info = info
         return None
@@ -537,6 +541,9 @@ class TrackerInit(Spec):
     def __init__(self, advection):
         self.advection = advection
         self.name = f"Tracker.__init__[advection={advection!r}]"
+        if advection not in ("EF", "RK2", "RK4", ""):
+            # no property says what an unknown scheme name does: refusing it is as good as running without advection
+            self.may_raise = ("ValueError", "SystemExit", "KeyError", "AttributeError", "TypeError")
 
         def default_rng(interp, *a, **k):
             return Rng()
